@@ -62,10 +62,34 @@ func checkShowCursorAlwaysRecomputes(c *Ctx, p *Prog, rule string) {
 		c.Undecided(rule, "simscreen.ShowCursor", "-", "not found")
 		return
 	}
+	// the visibility is the field whose value GetCursor answers third (whatever it is called and
+	// whichever struct holds it); without that anchor, a simscreen field named for it
+	visRefs := map[string]bool{}
+	if gc := p.Fn("tcell:(*simscreen).GetCursor"); gc != nil {
+		for _, r := range returnsOf(gc) {
+			if ret := r; len(ret.Results) == 3 {
+				if ld, isLd := ret.Results[2].(*ssa.UnOp); isLd && ld.Op == token.MUL {
+					if ref, _, isF := fieldAddrRef(ld.X); isF {
+						visRefs[ref.Owner+"."+ref.Name] = true
+					}
+				}
+			}
+		}
+	}
+	isVis := func(addr ssa.Value) bool {
+		ref, _, isF := fieldAddrRef(addr)
+		if !isF {
+			return false
+		}
+		if len(visRefs) > 0 {
+			return visRefs[ref.Owner+"."+ref.Name]
+		}
+		return ref.Owner == "tcell.simscreen" && strings.Contains(ref.Name, "vis")
+	}
 	stop := map[ssa.Instruction]bool{}
 	eachInstr(fn, func(in ssa.Instruction) {
 		if st, ok := in.(*ssa.Store); ok {
-			if ref, _, isF := fieldAddrRef(st.Addr); isF && ref.Owner == "tcell.simscreen" && strings.Contains(ref.Name, "vis") {
+			if isVis(st.Addr) {
 				stop[in] = true
 			}
 		}
@@ -73,10 +97,8 @@ func checkShowCursorAlwaysRecomputes(c *Ctx, p *Prog, rule string) {
 			if h := cc.StaticCallee(); h != nil && h.Pkg == p.Tcell && h != fn {
 				hit := false
 				eachInstr(h, func(x ssa.Instruction) {
-					if st, ok := x.(*ssa.Store); ok {
-						if ref, _, isF := fieldAddrRef(st.Addr); isF && ref.Owner == "tcell.simscreen" && strings.Contains(ref.Name, "vis") {
-							hit = true
-						}
+					if st, ok := x.(*ssa.Store); ok && isVis(st.Addr) {
+						hit = true
 					}
 				})
 				if hit {
